@@ -224,6 +224,12 @@ def apps1():
         {"k": "chain", "id": 901, "tid": 902, "root": {"k": "req", "tag": 992, "val": 2}, "stages": [], "sink": {"tag": 993}},
     ]
     out = []
+    # a task emits two events and then waits for a case-wide channel; handling the first event starts a command
+    # that pokes the channel, the task wakes up inside the same call and emits a third event
+    G = lambda code: {"k": "async", "id": 901, "tid": 902, "code": code}
+    waiter = A([E(1), E(2), {"op": "grecv", "g": 1, "dst": 1}, E(3, 1), R(4), E(5)])
+    out.append({"progs": [waiter, G([{"op": "gsend", "g": 1, "src": {"c": 7}}])], "follow": {"1": 1}})
+    out.append({"progs": [waiter, G([R(990), {"op": "gsend", "g": 1, "src": {"r": 1}}, E(991)])], "follow": {"2": 1}})
     for b in bases:
         tags = []
         event_tags(b, tags)
